@@ -301,7 +301,12 @@ def make_stop(model, stop):
     sensor, idx, op, thr = stop
     target = model.elements[idx]
     if sensor == 'encoder':
-        s, q = AbsoluteRotaryEncoder(target=target), Q(AngularPosition, thr)
+        # thr = [value, unit, 'Angle']: the threshold is handed over as an Angle (a sub-kind of AngularPosition)
+        if len(thr) == 3 and thr[2] == 'Angle':
+            from gearpy.units import Angle
+            s, q = AbsoluteRotaryEncoder(target=target), Q(Angle, thr[:2])
+        else:
+            s, q = AbsoluteRotaryEncoder(target=target), Q(AngularPosition, thr)
     elif sensor == 'tachometer':
         s, q = Tachometer(target=target), Q(AngularSpeed, thr)
     else:
